@@ -5,6 +5,7 @@ CONSTANTS
   Periods <- PeriodsA
   MaxNow = 4
   EnvOps = {"kill", "abort", "busy"}
+  Stalls = {}
   VirtualClock = TRUE
   Instant = FALSE
   UnstartedKillsInterval = TRUE
